@@ -189,11 +189,11 @@ impl Property for C12 {
         check(s)
     }
     fn valid(s: &Scenario) -> bool {
-        (0.0..=1.0).contains(&s.smoothing) && (1..=10_800_000_000_000).contains(&s.window) && dom::grid(s.unit) && s.t0.checked_add(s.events.iter().map(|e| if let Ev::P(_, dt) = e { *dt } else { 0 }).sum::<i64>()).is_some() && s.events.len() <= 64 && s.events.iter().all(|e| match e {
+        (0.0..=1.0).contains(&s.smoothing) && (1..=10_800_000_000_000).contains(&s.window) && dom::grid(s.unit) && s.events.len() <= 64 && s.events.iter().all(|e| match e {
             Ev::P(v, dt) => dom::moderate(*v) && (0..=10_800_000_000_000).contains(dt),
             Ev::A => true,
             Ev::E(c) => *c <= 2,
-        })
+        }) && s.events.iter().try_fold(s.t0, |t, e| t.checked_add(if let Ev::P(_, dt) = e { *dt } else { 0 })).is_some()
     }
     fn extra_coverage() -> std::collections::BTreeMap<String, serde_json::Value> {
         let mut m = std::collections::BTreeMap::new();
